@@ -1188,3 +1188,18 @@ pub(crate) fn c_debug<const N: usize>() {
     nd::reached();
     core::mem::forget(b);
 }
+
+// ----- Extend<&T> for Copy elements (C01 C12) ------------------------------------------------
+
+pub(crate) fn c_extend_ref<const N: usize, const L: usize>() {
+    let mut b = any_u8buf::<N>();
+    let old = bytes_of(&b);
+    let mut src = [0u8; L]; let mut i = 0; while i < L { src[i] = nd::any_u8(); i += 1; }
+    let n = nd::usize_in(0, L);
+    b.extend(&src[..n]);
+    check!(wf(&b), "[C01,C12] extend(&T): representation invariant broken");
+    let mut m = old; let mut i = 0; while i < n { m.push(src[i]); i += 1; }
+    m.keep_last(N);
+    check!(bytes_of(&b).eq(&m), "[C01,C12] extend(&T): contents are not the last N of (old contents ++ copied items)");
+    nd::reached();
+}
